@@ -177,6 +177,10 @@ func simShareBytes(kind string, P []*big.Int, to int) [][]byte {
 		return nil
 	case "bad":
 		return [][]byte{dkgMsgShare(dkgMod(new(big.Int).Add(s, big.NewInt(1))))}
+	case "trunc":
+		// the share that matches the vector with its last coefficient dropped (what a reader that
+		// stops at a malformed last point is left with)
+		return [][]byte{dkgMsgShare(dkgPeval(P[:len(P)-1], int64(to+1)))}
 	case "zero":
 		return [][]byte{dkgMsgShare(new(big.Int))}
 	case "ger":
